@@ -100,9 +100,15 @@ impl RunResult {
 pub struct RunOpts {
     pub patience: Duration,
 }
+
+/// set once the watchdog had to release a run in this process: the code under test evidently
+/// blocks on something the simulator does not see, so later runs need not wait as long
+static LOST_ONCE: std::sync::atomic::AtomicBool = std::sync::atomic::AtomicBool::new(false);
+
 impl Default for RunOpts {
     fn default() -> Self {
-        RunOpts { patience: Duration::from_secs(20) }
+        let lost = LOST_ONCE.load(std::sync::atomic::Ordering::Relaxed);
+        RunOpts { patience: if lost { Duration::from_millis(250) } else { Duration::from_secs(10) } }
     }
 }
 
@@ -480,6 +486,9 @@ fn probe_counters(spec: &RunSpec, op: &Op, out: &Outcome, c: &mut Counters) {
     if out.stub.yields > 0 {
         c.add("reach.callback_suspended_mid_batch", 1);
     }
+    if out.stub.elem_yields > 0 {
+        c.add("reach.call_suspended_between_element_operations", 1);
+    }
     if out.class == Class::Skip {
         c.add("harness.skip", 1);
     }
@@ -628,11 +637,13 @@ pub fn run_spec(spec: &RunSpec, prop: Prop, opts: &RunOpts) -> RunResult {
     res.compared = outs.len();
     res.counters.add("fault.crash.fired", *crashed.lock().unwrap());
     res.counters.add("sched.switches", summary.switches as u64);
+    res.counters.add("sched.element_operation_switches", summary.elem_switches as u64);
     res.counters.add("fault.stall.fired", if summary.stall_hits > 0 { 1 } else { 0 });
     res.counters.add("fault.stall.decisions_withheld", summary.stall_hits as u64);
     res.counters.add("reach.callback_interleaved_with_foreign_operation", summary.callback_switches as u64);
     if summary.lost_control {
         res.counters.add("sched.lost_control", 1);
+        LOST_ONCE.store(true, std::sync::atomic::Ordering::Relaxed);
     }
     for (t, i, _, out) in &outs {
         probe_counters(spec, &spec.threads[*t].ops[*i], out, &mut res.counters);
